@@ -176,9 +176,11 @@ class DebugInfo:
                 # and anything between the end of the last child
                 # statement and the end of the block is part of the
                 # "end statement" of the block.
-                last_child = children[-1]
+                # (the last child is the one that ends last: the one
+                # that starts last may be nested inside it)
+                last_child_end = max(r.end_offset for r in children)
                 add_node_record(block.end_stmt,
-                                last_child.end_offset,
+                                last_child_end,
                                 end_offset)
             else:
                 # there should have been an empty block marker inside.
